@@ -396,6 +396,10 @@ thread_local! {
     static HOSTILE: std::cell::Cell<bool> = const { std::cell::Cell::new(false) };
 }
 
+thread_local! {
+    static FULL_OK: std::cell::Cell<bool> = const { std::cell::Cell::new(true) };
+}
+
 fn hostile() -> bool {
     HOSTILE.with(|h| h.get())
 }
@@ -481,6 +485,7 @@ pub fn range_ref(rng: &mut Rng, cx: &FCtx) -> String {
 /// `full`: full-column / full-row ranges allowed (aggregates only: an array
 /// formula over a million rows costs 0.3 s per evaluation)
 pub fn range_ref_opt(rng: &mut Rng, cx: &FCtx, full: bool) -> String {
+    let full = full && FULL_OK.with(|f| f.get());
     let k = if full { rng.weighted(&[80, 8, 8]) } else { 0 };
     if !full && cx.p.guards {
         // guard of KF "cycles through array formulas": array formulas read only
@@ -770,6 +775,15 @@ fn dxf(rng: &mut Rng) -> Dxf {
 }
 
 pub fn cf_rule(rng: &mut Rng, cx: &FCtx) -> CfRuleInput {
+    // a rule formula is evaluated once per cell of its range and per evaluation: a
+    // whole-column aggregate in it costs seconds, which only trips the watchdog
+    FULL_OK.with(|f| f.set(false));
+    let r = cf_rule_inner(rng, cx);
+    FULL_OK.with(|f| f.set(true));
+    r
+}
+
+fn cf_rule_inner(rng: &mut Rng, cx: &FCtx) -> CfRuleInput {
     match rng.below(5) {
         0 => CfRuleInput::Formula {
             formula: expr(rng, cx, 2),
